@@ -22,6 +22,8 @@
    caller does not get a nil error in that case either. *)
 From Soy Require Import Model.Bytes Model.Num Model.Values Model.Outcome Model.Ast
   Model.Interp Spec.Writer Spec.Safety Proofs.InterpLogic Proofs.WriterProofs Proofs.WriterSafety.
+From Soy Require Import Model.JsWrite Proofs.JsWriteProofs.
+From Soy Require Import Model.InterpExt Proofs.InterpExtProofs Proofs.WriterExtProofs.
 Open Scope N_scope.
 
 (* if the writer refuses any Write call of the fault-free render (the k-th call with k below
@@ -148,4 +150,98 @@ Proof. vm_compute. split; reflexivity. Qed.
 (* the last print on a dead writer: the witness of I4 is an error in the model of the repaired code *)
 Example ex_last_print_dead_writer :
   rr_outcome (render ex_cfg 10 ex_name 7 [(b "x", VStr (b "a"))] (Some 1%nat) None 100) = Err e_write.
+Proof. vm_compute. reflexivity. Qed.
+
+(* ================================================================== *)
+(* rendering through a message bundle, installed functions and directives *)
+(* ================================================================== *)
+(* [render_x] (Model/InterpExt.v): the walker extended, by open recursion over [walk_body], with evalMsg's path
+   through a translation (evalMsgParts: translated text written with a checked write, placeholders walked, the
+   parts of the selected plural form) and with arbitrary installed functions / print directives.  The theorems
+   above hold of it verbatim, for every bundle [c_msgs cf] and every installation [ux]. *)
+Section Extended.
+Variable ux : user_ext.
+
+Theorem write_fault_surfaces_x :
+  forall cf fuel name id data fid cl bl,
+    refuses cl bl (rr_writes (render_x cf ux fuel name id data None None fid)) ->
+    surfaced (rr_outcome (render_x cf ux fuel name id data cl bl fid)).
+Proof. intros cf fuel name id data fid. apply write_fault_surfaces_l_x. Qed.
+
+Theorem accepted_is_prefix_x :
+  forall cf fuel name id data fid cl bl,
+    prefix_of (accepted (render_x cf ux fuel name id data cl bl fid))
+              (accepted (render_x cf ux fuel name id data None None fid)).
+Proof. intros cf fuel name id data fid. apply accepted_is_prefix_l_x. Qed.
+
+Theorem nil_means_all_written_x :
+  forall cf fuel name id data fid cl bl,
+    rr_outcome (render_x cf ux fuel name id data cl bl fid) = Ok tt ->
+    rr_writes (render_x cf ux fuel name id data cl bl fid) = rr_writes (render_x cf ux fuel name id data None None fid) /\
+    accepted (render_x cf ux fuel name id data cl bl fid) = accepted (render_x cf ux fuel name id data None None fid) /\
+    rr_outcome (render_x cf ux fuel name id data None None fid) = Ok tt.
+Proof. intros cf fuel name id data fid. apply nil_means_all_written_l_x. Qed.
+
+Theorem accepted_exact_calls_x :
+  forall cf fuel name id data fid k,
+    refuses (Some k) None (rr_writes (render_x cf ux fuel name id data None None fid)) ->
+    rr_writes (render_x cf ux fuel name id data (Some k) None fid) =
+    firstn k (rr_writes (render_x cf ux fuel name id data None None fid)).
+Proof. intros cf fuel name id data fid. apply accepted_exact_calls_l_x. Qed.
+
+Theorem sufficient_budget_no_change_x :
+  forall cf fuel name id data fid cl bl,
+    ~ refuses cl bl (rr_writes (render_x cf ux fuel name id data None None fid)) ->
+    render_x cf ux fuel name id data cl bl fid = render_x cf ux fuel name id data None None fid.
+Proof. intros cf fuel name id data fid. apply sufficient_budget_no_change_l_x. Qed.
+
+Theorem walker_two_run_simulation_x :
+  forall cf fuel n st, sim st (walk_x cf ux fuel n st) (walk_x cf ux fuel n (unfault st)).
+Proof. intros cf fuel n. exact (walk_x_wsim cf ux fuel n). Qed.
+End Extended.
+Print Assumptions write_fault_surfaces_x.
+Print Assumptions accepted_is_prefix_x.
+Print Assumptions nil_means_all_written_x.
+Print Assumptions accepted_exact_calls_x.
+Print Assumptions sufficient_budget_no_change_x.
+Print Assumptions walker_two_run_simulation_x.
+
+(* non-vacuity: {msg}{plural $x}{case 1}one{default}{$x} items{/plural}{/msg} through a bundle with the forms "eins" /
+   "{N_2} Stueck": the translated text after the last placeholder of the selected form, refused, is an error (the
+   situation of seeded change C12b-3) *)
+Example ex_translated_plural :
+  (rr_outcome (tr_run (Some tr_bundle) 3 None), rr_writes (tr_run (Some tr_bundle) 3 None)) = (Ok tt, [b "3"; b " Stueck"]) /\
+  (rr_outcome (tr_run (Some tr_bundle) 3 (Some 1%nat)), rr_writes (tr_run (Some tr_bundle) 3 (Some 1%nat))) = (Err e_write, [b "3"]).
+Proof. vm_compute. split; reflexivity. Qed.
+
+(* ================================================================== *)
+(* the JavaScript-side counterpart: soyjs.Write on a failing writer     *)
+(* ================================================================== *)
+(* soyjs.Write generates into memory and hands the caller's writer its pieces (the import block, the script) in
+   order.  [js_write] (Model/JsWrite.v) is that, AFTER the repair notes/pending/C12-js-write-errors.diff (each
+   Write call checked); the theorems hold for every list of pieces and every writer automaton.  Not a render in the
+   sense of the property's text: the harness records the pinned behaviour under the finding
+   js-write-drops-writer-errors. *)
+Theorem js_write_fault_surfaces :
+  forall pieces cl bl, refuses cl bl pieces -> fst (js_write pieces cl bl) = Err e_write.
+Proof. exact js_write_fault_surfaces_l. Qed.
+Print Assumptions js_write_fault_surfaces.
+
+Theorem js_accepted_is_prefix :
+  forall pieces cl bl, prefix_of (concat_b (snd (js_write pieces cl bl))) (concat_b pieces).
+Proof. exact js_accepted_is_prefix_l. Qed.
+Print Assumptions js_accepted_is_prefix.
+
+Theorem js_nil_means_all_written :
+  forall pieces cl bl, fst (js_write pieces cl bl) = Ok tt -> snd (js_write pieces cl bl) = pieces.
+Proof. exact js_nil_means_all_written_l. Qed.
+Print Assumptions js_nil_means_all_written.
+
+(* the pinned soyjs.Write (results of out.Write dropped) returns nil on a dead writer *)
+Theorem js_write_pinned_drops_errors :
+  exists pieces cl bl, refuses cl bl pieces /\ fst (js_write_pinned pieces cl bl) = Ok tt /\ snd (js_write_pinned pieces cl bl) = [].
+Proof. exact js_write_pinned_refuted. Qed.
+
+Example ex_js_second_piece_refused :
+  js_write [b "import x;"; b "var t = 1;"] (Some 1%nat) None = (Err e_write, [b "import x;"]).
 Proof. vm_compute. reflexivity. Qed.
